@@ -69,6 +69,9 @@ def docs(seed):
     out.append([("par", [plain("A")]), ("raw", "  \n")])
     out.append([("par", [plain("A")]), ("raw", "\n#end\n")])
     out.append([("par", [("a", "", "a: %s\n" % v), plain("Bb")])])
+    # the same names in different case in two paragraphs (process- or document-wide state keyed by name)
+    out.append([("par", [plain("A"), ("Bb", "#cm Bb\n", "Bb: %s\n" % v)]), ("raw", "\n"),
+                ("par", [("a", "#cm a\n", "a: %s\n" % v), ("BB", "", "BB: %s\n" % v)])])
     res = []
     for d in out:
         res.append(d)
@@ -104,6 +107,10 @@ def ops_full(doc):
             ops.append(("del", pi, f.name))
         ops.append(("set", pi, par[0].name.swapcase(), "y"))
         ops.append(("del", pi, par[-1].name.swapcase()))
+        # must be refused and leave everything (the field's own comment included) as it was
+        ops.append(("set", pi, par[-1].name, _doc.INVALID_VALUES[0]))
+        ops.append(("set", pi, par[0].name, _doc.INVALID_VALUES[1]))
+        ops.append(("del", pi, "Zz-absent"))
         if "n" not in seen:
             for val in VALUES:
                 ops.append(("set", pi, "N", val))
